@@ -9,8 +9,10 @@ from ..core import Res, Sub, fail, run_garden
 PROPERTY_ID = "C34"
 LEVEL = "exploration"
 RULE = ("Generated projects of 1..3 files in a scratch directory: each file defines public and private functions "
-        "(each returns its own name; some public ones call a private one of the same file), imports a random subset "
-        "of the other files with or without `as`, including cycles (A<->B, A->B->C->A) and self-imports. A main file "
+        "(each returns its own name, optionally appended to the result of a lower-numbered function it calls: an own "
+        "function, or a public function of a file it imports - through the alias, unqualified, or through an aliased "
+        "self-import), imports a random subset of the files with or without `as`, written before or after the "
+        "definitions, including cycles (A<->B, A->B->C->A) and self-imports. A main file "
         "exercises uses whose legality is known by construction: qualified `ns::f` and unqualified `f` of public and "
         "of private functions of directly imported files. Oracle: all legal uses together -> `garden check --json` "
         "reports no error and `garden run` prints every callee's name; each illegal use alone -> `check` reports an "
@@ -35,37 +37,85 @@ def gen(r):
     files = []
     for i in range(k):
         funs = []
-        for j in range(r.int(1, 3)):
-            funs.append({"name": f"fn_{i}_{j}", "public": r.bool(0.55)})
-        files.append({"name": f"mod{i}.gdn", "funs": funs, "imports": []})
+        for j in range(r.int(1, 4)):
+            funs.append({"name": f"fn_{i}_{j}", "public": r.bool(0.55), "call": None})
+        files.append({"name": f"mod{i}.gdn", "funs": funs, "imports": [], "imports_first": r.bool()})
     for i in range(k):
         for t in range(k):
-            if r.bool(0.6 if t != i else 0.15):
+            if r.bool(0.6 if t != i else 0.25):
                 files[i]["imports"].append({"target": t, "alias": (f"ns{t}" if r.bool(0.6) else None)})
+    # calls between modules: a function may call a lower-numbered function (so calls never cycle although imports
+    # do) - an own function directly, or a public function of a file it imports, through the alias or unqualified.
+    # A self-import with an alias gives `nsI::fn` inside modI itself.
+    for i, f in enumerate(files):
+        for j, g in enumerate(f["funs"]):
+            if j == 0 or not r.bool(0.6):
+                continue
+            opts = [{"via": "own", "target": i, "fun": jj} for jj in range(j)]
+            for im in f["imports"]:
+                for jj, h in enumerate(files[im["target"]]["funs"]):
+                    if jj < j and h["public"]:
+                        opts.append({"via": im["alias"] or "unqualified", "target": im["target"], "fun": jj})
+            imported = [o for o in opts if o["via"] != "own"]
+            g["call"] = r.choice(imported) if imported and r.bool(0.75) else r.choice(opts)
     # the main file imports every module once, each either qualified or unqualified
     main_imports = [{"target": t, "alias": (f"m{t}" if r.bool(0.5) else None)} for t in range(k)]
     return {"files": files, "main_imports": main_imports, "order": r.sample(list(range(k)), k)}
 
 
+def gen_cycle_chain(r):
+    """2..3 files on an import cycle and a chain of public functions that follows the cycle (file i's function of rank j
+    calls file i+1's function of rank j-1), so that a definition of every file is needed while another file of the
+    cycle is still being loaded"""
+    k = r.int(2, 3)
+    depth = r.int(2, 4)
+    files = []
+    for i in range(k):
+        funs = [{"name": f"fn_{i}_{j}", "public": True, "call": None} for j in range(depth)]
+        if r.bool():
+            funs.append({"name": f"fn_{i}_{depth}", "public": False, "call": None})
+        files.append({"name": f"mod{i}.gdn", "funs": funs, "imports": [], "imports_first": r.bool()})
+    for i in range(k):
+        t = (i + 1) % k
+        files[i]["imports"].append({"target": t, "alias": (f"ns{t}" if r.bool(0.4) else None)})
+        if k == 3 and r.bool(0.3):
+            t2 = (i + 2) % k
+            files[i]["imports"].append({"target": t2, "alias": (f"ns{t2}" if r.bool(0.5) else None)})
+    for i, f in enumerate(files):
+        im = f["imports"][0]
+        for j in range(1, depth):
+            f["funs"][j]["call"] = {"via": im["alias"] or "unqualified", "target": im["target"], "fun": j - 1}
+    t = r.int(0, k - 1)
+    main_imports = [{"target": t, "alias": (f"m{t}" if r.bool(0.5) else None)}]
+    if r.bool(0.4):
+        t2 = (t + 1) % k
+        main_imports.append({"target": t2, "alias": (f"m{t2}" if r.bool(0.5) else None)})
+    return {"files": files, "main_imports": main_imports, "order": list(range(k))}
+
+
 def render_module(f, files):
-    out = []
-    privs = [g["name"] for g in f["funs"] if not g["public"]]
+    defs, imps = [], []
     for g in f["funs"]:
         vis = "public " if g["public"] else ""
         body = f'"{g["name"]}"'
-        if g["public"] and privs:
-            body = f'{privs[0]}() ^ "<-{g["name"]}"' if g["name"].endswith("_0") else body
-        out.append(f"{vis}fun {g['name']}(): String {{ {body} }}")
+        c = g.get("call")
+        if c:
+            callee = files[c["target"]]["funs"][c["fun"]]["name"]
+            expr = f"{callee}()" if c["via"] in ("own", "unqualified") else f"{c['via']}::{callee}()"
+            body = f'{expr} ^ "<-{g["name"]}"'
+        defs.append(f"{vis}fun {g['name']}(): String {{ {body} }}")
     for im in f["imports"]:
         t = files[im["target"]]["name"]
-        out.append(f'import "./{t}"' + (f' as {im["alias"]}' if im["alias"] else ""))
+        imps.append(f'import "./{t}"' + (f' as {im["alias"]}' if im["alias"] else ""))
+    out = imps + defs if f.get("imports_first") else defs + imps
     return "\n".join(out) + "\n"
 
 
-def expected_output(g, f):
-    privs = [x["name"] for x in f["funs"] if not x["public"]]
-    if g["public"] and privs and g["name"].endswith("_0"):
-        return f'{privs[0]}<-{g["name"]}'
+def expected_output(g, f, files=None):
+    c = g.get("call")
+    if c and files is not None:
+        tf = files[c["target"]]
+        return expected_output(tf["funs"][c["fun"]], tf, files) + "<-" + g["name"]
     return g["name"]
 
 
@@ -123,9 +173,23 @@ def check(case, ctx) -> Res:
     errs = errors_of(c)
     if errs:
         return fail("check reports an error for a legal use of a public function", f"{errs[:2]}\n{desc}--- main.gdn\n{main_src}", classes=cls)
-    exp = "".join(expected_output(g, f) + "\n" for _, g, f in legal)
+    exp = "".join(expected_output(g, f, files) + "\n" for _, g, f in legal)
     if r.out != exp or "Exception" in r.err:
-        return fail("a legal use of a public function fails or prints something else at run time",
+        sig = "a legal use of a public function fails or prints something else at run time"
+        import re as _re
+        m = _re.search(r"No such variable `fn_(\d+)_\d+`[^\n]*\n-\| mod(\d+)\.gdn", r.err)
+        if m:
+            callee_file, caller_file = int(m.group(1)), int(m.group(2))
+            unq = any(im["target"] == callee_file and not im["alias"] for im in files[caller_file]["imports"])
+
+            def reaches(a, b, seen=()):
+                return any(im["target"] == b or (im["target"] not in seen and reaches(im["target"], b, seen + (a,)))
+                           for im in files[a]["imports"])
+            if unq and callee_file != caller_file and reaches(callee_file, caller_file):
+                # one root cause: an unqualified import copies the imported file's public definitions at import
+                # time; inside an import cycle the other file is still being loaded and has none yet
+                sig = "an unqualified import inside an import cycle does not see the other file's public functions"
+        return fail(sig,
                     f"expected\n{exp}got\n{r.out}{r.err[:300]}\n{desc}--- main.gdn\n{main_src}", classes=cls)
     # each illegal use alone
     for e, g, f in illegal:
@@ -165,4 +229,5 @@ def show(case):
         "--- main imports: " + json.dumps(case["main_imports"])
 
 
-SUBS = [Sub("projects", check, gen=gen, cases={"quick": 250, "thorough": 8000}, show=show)]
+SUBS = [Sub("projects", check, gen=gen, cases={"quick": 250, "thorough": 8000}, show=show),
+        Sub("cycle-call-chains", check, gen=gen_cycle_chain, cases={"quick": 120, "thorough": 4000}, show=show)]
